@@ -35,6 +35,9 @@ type fsState struct {
 	faults  bool     // when true every operation asks vx.Fault whether to fail
 	nextGen int
 	strict  bool // unknown paths are errors (ENOENT) rather than unsupported
+	events  []string // ghost: ordering-rule violations observed ("rename-of-unsynced-file <path>", ...)
+	published []string // names that came into existence by rename, in order
+	unlinked  []string // names removed, in order
 }
 
 type fsCrash struct{}
@@ -160,6 +163,7 @@ func registerIO(e *Engine) {
 			return ex.ioErr("remove", p)
 		}
 		delete(st.nodes, p)
+		st.unlinked = append(st.unlinked, p)
 		if d := st.nodes[parentDir(p)]; d != nil {
 			d.entriesDirty = true
 		}
